@@ -213,7 +213,20 @@ def statedb_cases(rng, n):
             elif "var0" in vs:
                 del vs["var0"]
             rounds.append({"accounts": accts, "vars": vs})
-        cases.append({"rounds": rounds, "qaccts": names + ["ctr", "nobody"], "qvars": vnames + ["novar"], "contract": "ctr"})
+        c = {"rounds": rounds, "qaccts": names + ["ctr", "nobody"], "qvars": vnames + ["novar"], "contract": "ctr"}
+        if rng.random() < 0.75:
+            # puts / storage writes left PENDING on the live StateDB after the last commit: proofs are
+            # asked before Update ("buffered") and between Update and Commit ("updated"), root nil
+            # and explicit current root
+            known = sorted({a for r in rounds for a in r["accounts"]} - {"ctr"})
+            pa = {a: rng.randrange(1000, 2000) for a in rng.sample(known, min(len(known), rng.randrange(1, 4)))}
+            for a in rng.sample(names, rng.randrange(0, 3)):
+                pa.setdefault(a, rng.randrange(1000, 2000))
+            pv = {}
+            for v in rng.sample(vnames[1:], rng.randrange(0, 4)):
+                pv[v] = "" if rng.random() < 0.3 else "pend%d" % rng.randrange(100)
+            c["pending"] = {"accounts": pa, "vars": pv}
+        cases.append(c)
     return cases
 
 
@@ -229,10 +242,40 @@ def statedb_predicates(cases, obs):
                 else:
                     vars_[k] = v
             hist.append((dict(accts), dict(vars_)))
+        if c.get("pending"):
+            pa, pv = dict(accts), dict(vars_)
+            pa.update(c["pending"]["accounts"])
+            for k, val in c["pending"]["vars"].items():
+                if val == "":
+                    pv.pop(k, None)
+                else:
+                    pv[k] = val
+            pend = (pa, pv)
+        agree = {}
         for o in os_:
             n += 1
-            a, v = hist[o["round"]]
+            # before Update the current root is still the committed one; after Update it is the
+            # root of committed + pending contents
+            a, v = pend if o.get("phase") in ("updated", "committed") else hist[o["round"]]
             rep = {"case": c, "obs": o}
+            if o.get("phase") and o["kind"] == "account":
+                k = (o["phase"], o["name"], o["comp"])
+                ans = (o["err"], o["inclusion"], o["nonce"], o["verified"])
+                if k in agree and agree[k][0] != ans:
+                    fails.append(("statedb-proof-nil-root-differs", "live StateDB with pending writes (%s): the answer for "
+                                  "root=nil (latest) differs from the answer for the same root passed explicitly" % o["phase"],
+                                  {"case": c, "obs": o, "other": agree[k][1]}))
+                agree.setdefault(k, (ans, o))
+            if o.get("phase") == "updated":
+                # F37g: between Update and Commit the new leaf data is not in the store yet
+                pnd = c["pending"]
+                if (o["kind"] == "account" and (o["name"] in pnd["accounts"] or (o["name"] == c["contract"] and pnd["vars"]))
+                        and not o["err"] and o["inclusion"] and not o["verified"] and o["nonce"] == 0):
+                    fails.append(("statedb-proof-between-update-and-commit", "account changed by the pending block: inclusion proof with an empty State", rep))
+                    continue
+                if o["kind"] == "var" and pnd["vars"] and "unavailable in the disk db" in o["err"]:
+                    fails.append(("statedb-proof-between-update-and-commit", "variable proof against the updated, uncommitted storage root fails", rep))
+                    continue
             if o["err"]:
                 fails.append(("statedb-proof-error", "GetAccountAndProof/GetVarAndProof failed: " + o["err"], rep))
                 continue
